@@ -112,3 +112,32 @@ Fixpoint exec (fuel : nat) (env : denv) (l : list dstmt) (s : store) : dres :=
 (* the calls recorded by a run, in the order they were made *)
 Definition calls_of (s : store) : list string :=
   rev (flat_map (fun kv => if String.eqb (fst kv) "!call" then [snd kv] else []) s).
+
+(* ---------- the tests a piece of translated code makes ----------
+   An environment answers `false` to an equality it does not know (e_eq is a total function), so a
+   tie proved by evaluating the code under an environment must also say that every test occurring
+   in the code is one the environment was written for: [tests_known code known].  A test that is
+   new in the source then breaks the tie instead of silently evaluating to false. *)
+Fixpoint tests_of_expr (e : dexpr) : list string :=
+  match e with
+  | DHas c => [String.append "has " c]
+  | DEq a b => [String.append a (String.append " == " b)]
+  | DAtom a => [a]
+  | DNot x => tests_of_expr x
+  | DAnd a b | DOr a b => app (tests_of_expr a) (tests_of_expr b)
+  | DUnknown s => [String.append "?" s]
+  end.
+
+Fixpoint tests_of_stmt (s : dstmt) : list string :=
+  match s with
+  | DIf c t e => app (tests_of_expr c) (app (flat_map tests_of_stmt t) (flat_map tests_of_stmt e))
+  | DSwitch subj cases => cons (String.append "switch " subj) (flat_map (fun cs => flat_map tests_of_stmt (snd cs)) cases)
+  | DRange _ _ body => flat_map tests_of_stmt body
+  | DOther k => [String.append "?stmt " k]
+  | _ => []
+  end.
+
+Definition tests_of (l : list dstmt) : list string := flat_map tests_of_stmt l.
+
+Definition tests_known (l : list dstmt) (known : list string) : bool :=
+  forallb (fun t => existsb (String.eqb t) known) (tests_of l).
